@@ -37,6 +37,7 @@ they now satisfy all five hypotheses and run to rows.
 -/
 import TrustfallModel.Proofs.InterpInvMain
 import TrustfallModel.Proofs.InterpInvWitness
+import TrustfallModel.Proofs.FrontendBridge
 
 namespace TF.C09
 open TF TF.Engine
@@ -142,9 +143,85 @@ example : WFq Witness.C21a.ir = true ∧ ArgsOK Witness.C21a.ir Witness.C21a.arg
 
 end TF.C09
 
+/-! ### compiled queries
+
+For the IR of a query the (modelled) frontend accepts, the structural hypothesis `WFq` is a theorem
+(`Bridge.toIR_WFq`, Proofs/FrontendBridgeWFq.lean), and `SchemaOK` follows from `ValidSchemaCore S` (a
+decidable predicate on the schema view alone: what the real `Schema::parse` guarantees, plus pairwise
+distinct parameter names per edge) up to the two sub-clauses about the type a `@recurse` edge
+continues on (`Bridge.RecClausesOK`, Proofs/FrontendBridge.lean: finding F-C21-1 and the clause that
+needs `InheritedParamsSame`; both vacuous for a query without `@recurse`,
+`Bridge.recClausesOK_of_noRecurse`).  So the statements quantify over "every query accepted by the
+frontend". -/
+namespace TF.C09.Compiled
+open TF TF.Engine TF.Frontend
+open TF.SchemaBridge (ValidSchemaCore)
+
+/-- **No panic on accepted queries** (under the guard of the two known triggers): executing the IR of
+any query the frontend accepts, typed by the schema, with valid arguments on a conforming dataset
+never panics. -/
+theorem exec_no_panic_compiled {S : SchemaView} {q : Spec.Query} {ir : IRQuery}
+    (h : toIR S q = .ok ir) (D : Data) (args : List (Name × Value))
+    (hV : ValidSchemaCore S = true) (hrec : Bridge.RecClausesOK S ir = true)
+    (hargs : ArgsOK ir args = true)
+    (hconf : Conforms S D = true) (hnt : NoKnownTrigger D ir args = true) :
+    ∀ s, interpret (Env.ofData D args) ir ≠ .panic s :=
+  exec_no_panic_partial S D ir args (Bridge.toIR_WFq h)
+    (Bridge.toIR_SchemaOK_core hV h hrec) hargs hconf hnt
+
+/-- Without the guard: the only panic sites an accepted query can reach are the two known ones, and
+then a known trigger is present. -/
+theorem exec_panic_site_compiled {S : SchemaView} {q : Spec.Query} {ir : IRQuery}
+    (h : toIR S q = .ok ir) (D : Data) (args : List (Name × Value))
+    (hV : ValidSchemaCore S = true) (hrec : Bridge.RecClausesOK S ir = true)
+    (hargs : ArgsOK ir args = true)
+    (hconf : Conforms S D = true) (s : String)
+    (hp : interpret (Env.ofData D args) ir = .panic s) :
+    knownSite s = true ∧ NoKnownTrigger D ir args = false :=
+  exec_panic_site S D ir args (Bridge.toIR_WFq h)
+    (Bridge.toIR_SchemaOK_core hV h hrec) hargs hconf s hp
+
+/-- `{ R0 { s @output(name: "o0")
+          e0 @optional { e0 @fold @transform(op: "count") @filter(op: "=", value: ["$v1"]) } } }`
+— the query of the F-9 regression world (`Witness.F9`). -/
+def exQuery : Spec.Query :=
+  ⟨"R0", [], .mk none [
+    .prop "s" [.output "o0"],
+    .edge "e0" [] .optional (.mk none [
+      .edge "e0" [] (.fold [.countFilter (.bin .equals) (.var "v1")]) (.mk none [])])]⟩
+
+def accepted : M IRQuery → Bool
+  | .ok _ => true
+  | .error _ => false
+
+def getIR : M IRQuery → IRQuery
+  | .ok ir => ir
+  | .error _ => default
+
+theorem ok_getIR {r : M IRQuery} (h : accepted r = true) : r = .ok (getIR r) := by
+  cases r with
+  | ok ir => rfl
+  | error e => simp [accepted] at h
+
+/-- the IR the frontend model compiles the example query to, over the schema of `Witness.F9` -/
+def exIR : IRQuery := getIR (toIR Witness.F9.S exQuery)
+
+theorem ex_compiles : toIR Witness.F9.S exQuery = .ok exIR := ok_getIR (by decide +kernel)
+
+/-- Non-vacuity: the example query is accepted, the schema view is valid, its IR meets the remaining
+hypotheses (on the dataset and arguments of `Witness.F9`), and the theorem applies. -/
+example : ∀ s, interpret (Env.ofData Witness.F9.D Witness.F9.args) exIR ≠ .panic s :=
+  exec_no_panic_compiled ex_compiles Witness.F9.D Witness.F9.args (by decide +kernel)
+    (Bridge.recClausesOK_of_noRecurse _ (by decide +kernel))
+    (by decide +kernel) (by decide +kernel) (by decide +kernel)
+
+end TF.C09.Compiled
+
 #print axioms TF.C09.exec_no_panic_partial
 #print axioms TF.C09.exec_rows_or_fuel
 #print axioms TF.C09.exec_panic_site
 #print axioms TF.C09.exec_panics_F4
 #print axioms TF.C09.exec_panics_F5
 #print axioms TF.C09.exec_no_panic_full_false
+#print axioms TF.C09.Compiled.exec_no_panic_compiled
+#print axioms TF.C09.Compiled.exec_panic_site_compiled
